@@ -163,6 +163,9 @@ def build_mod():
     return _build["m"]
 
 
+_layouts = {}
+
+
 def version_file_values(t, extra, d):
     major, minor, patch, tweak = t
     lines = [f"VERSION_MAJOR = {major}", f"VERSION_MINOR = {minor}", f"PATCHLEVEL = {patch}"]
@@ -170,9 +173,28 @@ def version_file_values(t, extra, d):
         lines.append(f"VERSION_TWEAK = {tweak}")
     if extra is not None:
         lines.append(f"EXTRAVERSION = {extra}")
+    # the file is a list of NAME = value lines: their order, blank and comment lines, further (SYSCTRL_*) entries, the blanks around '='
+    # and the line ends are layout, not content
+    layout = (major + 3 * minor + 5 * patch + 7 * (tweak or 0) + len(extra or "")) % 8
+    nl = "\n"
+    if layout == 1 and len(lines) >= 5:
+        lines[3], lines[4] = lines[4], lines[3]  # EXTRAVERSION before VERSION_TWEAK
+    elif layout == 2:
+        lines.reverse()
+    elif layout == 3:
+        lines += ["", "# end of the version information", ""]
+    elif layout == 4:
+        lines += ["SYSCTRL_VERSION_MAJOR = 1", "SYSCTRL_VERSION_MINOR = 0", "SYSCTRL_PATCHLEVEL = 3", "SYSCTRL_VERSION_EXTRA ="]
+    elif layout == 5:
+        lines = [ln.replace(" = ", "=") for ln in lines]
+    elif layout == 6:
+        nl = "\r\n"
+    elif layout == 7:
+        lines = ["# SPDX-License-Identifier: Apache-2.0", ""] + [x for ln in lines for x in (ln, "")] + ["; trailing remark"]
+    _layouts[layout] = _layouts.get(layout, 0) + 1
     p = os.path.join(d, "VERSION")
-    with open(p, "w") as fh:
-        fh.write("\n".join(lines) + "\n")
+    with open(p, "w", newline="") as fh:
+        fh.write(nl.join(lines) + nl)
     return dict(build_mod().read_version_file(p))
 
 
